@@ -35,6 +35,14 @@ def observe(fn):
         return {"ok": False, "exc": exc_name(exc), "msg": repr(exc)[:120]}
 
 
+def srepr(x):
+    """repr that cannot fail (a broken element must not break the report)"""
+    try:
+        return repr(x)
+    except Exception as exc:     # noqa
+        return "<unprintable: %s>" % exc_name(exc)
+
+
 def same_objects(a, b):
     a, b = list(a), list(b)
     return len(a) == len(b) and all(x is y for x, y in zip(a, b))
@@ -59,17 +67,17 @@ class Replay(object):
         for _ in range(2):          # iteration, repeatable, in the order of the arguments
             o = observe(lambda: list(seq))
             if not o["ok"] or not same_objects(o["r"], objs):
-                self.fail("%s:iteration" % name, sz, scenario=scen, observed=repr(o)[:200], expected=repr(objs))
+                self.fail("%s:iteration" % name, sz, scenario=scen, observed=srepr(o)[:200], expected=srepr(objs))
                 return
         for i in range(-n, n):
             o = observe(lambda: seq[i])
             if not o["ok"] or o["r"] is not objs[i]:
-                self.fail("%s:getitem" % name, sz, scenario=scen, index=i, observed=repr(o)[:200])
+                self.fail("%s:getitem" % name, sz, scenario=scen, index=i, observed=srepr(o)[:200])
                 return
         for i in (n, -n - 1, n + 3):
             o = observe(lambda: seq[i])
             if o["ok"] or o["exc"] != "Other:IndexError":
-                self.fail("%s:getitem:no-IndexError" % name, sz, scenario=scen, index=i, observed=repr(o)[:200])
+                self.fail("%s:getitem:no-IndexError" % name, sz, scenario=scen, index=i, observed=srepr(o)[:200])
                 return
 
     def rp_build(self, rec):
@@ -104,33 +112,43 @@ class Replay(object):
             objs = sl.universal(self.core, kind, n)
             if objs is None:
                 continue
-            seq = sl.construct(self.core, kind, objs)
+            made = observe(lambda: sl.construct(self.core, kind, objs))
             self.ncalls += 1
+            if not made["ok"]:
+                self.fail("%s:not-built:%s" % (kind, made["exc"]), n, elements=srepr(objs), observed=made)
+                continue
+            seq = made["r"]
             if slice_mode:
                 a, b, s = py(sc["a"]), py(sc["b"]), py(sc["s"])
                 o = observe(lambda: seq[a:b:s])
                 want = [objs[p - 1] for p in out["pos"]]
                 if not o["ok"] or not same_objects(o["r"], want):
-                    self.fail("%s:slice" % kind, n, n=n, slice=[a, b, s], observed=repr(o)[:200], expected=repr(want))
+                    self.fail("%s:slice" % kind, n, n=n, slice=[a, b, s], observed=srepr(o)[:200], expected=srepr(want))
             else:
                 a = sc["a"]
                 o = observe(lambda: seq[a])
                 if out["ok"]:
                     if not o["ok"] or o["r"] is not objs[out["pos"] - 1]:
-                        self.fail("%s:getitem" % kind, n, n=n, index=a, observed=repr(o)[:200])
+                        self.fail("%s:getitem" % kind, n, n=n, index=a, observed=srepr(o)[:200])
                 elif o["ok"] or o["exc"] != "Other:IndexError":
-                    self.fail("%s:getitem:no-IndexError" % kind, n, n=n, index=a, observed=repr(o)[:200])
+                    self.fail("%s:getitem:no-IndexError" % kind, n, n=n, index=a, observed=srepr(o)[:200])
 
     def rp_eq(self, rec):
         sc = rec["sc"]
         if not (rec["b1"] and rec["b2"]):
             return
         pool = {1: sl.CallEl("p1"), 2: sl.CallEl("p2"), 3: sl.UniEl("p3")}
-        s1 = sl.construct(self.core, sc["kind"], [pool[j] for j in sc["ids"]])
-        s2 = sl.construct(self.core, sc["kind2"], [pool[j] for j in sc["ids2"]])
-        self.ncalls += 1
         scen = {"left": [sc["kind"], sc["ids"]], "right": [sc["kind2"], sc["ids2"]]}
         sz = len(sc["ids"]) + len(sc["ids2"])
+        m1 = observe(lambda: sl.construct(self.core, sc["kind"], [pool[j] for j in sc["ids"]]))
+        m2 = observe(lambda: sl.construct(self.core, sc["kind2"], [pool[j] for j in sc["ids2"]]))
+        self.ncalls += 1
+        for kind, m in ((sc["kind"], m1), (sc["kind2"], m2)):
+            if not m["ok"]:
+                self.fail("%s:not-built:%s" % (kind, m["exc"]), sz, scenario=scen, observed=m)
+        if not (m1["ok"] and m2["ok"]):
+            return
+        s1, s2 = m1["r"], m2["r"]
         eq, ne = observe(lambda: s1 == s2), observe(lambda: s1 != s2)
         if not (eq["ok"] and ne["ok"] and isinstance(eq["r"], bool) and isinstance(ne["r"], bool)):
             self.fail("eq:not-a-boolean", sz, scenario=scen, observed=[repr(eq)[:80], repr(ne)[:80]])
@@ -159,12 +177,12 @@ class Replay(object):
         out = rec["out"]
         if out["same"]:
             if o["r"] is not obj:
-                self.fail("flatten:flat-input-not-returned-as-is", sz, tree=tree, observed=repr(o["r"])[:200])
+                self.fail("flatten:flat-input-not-returned-as-is", sz, tree=tree, observed=srepr(o["r"])[:200])
         else:
             want = [leaves[tuple(p)] if tuple(p) in leaves else sub_object(obj, p) for p in out["els"]]
             got = observe(lambda: list(o["r"]))
             if not got["ok"] or not same_objects(got["r"], want):
-                self.fail("flatten:wrong-elements", sz, tree=tree, observed=repr(got)[:300], expected=repr(want)[:300])
+                self.fail("flatten:wrong-elements", sz, tree=tree, observed=srepr(got)[:300], expected=srepr(want)[:300])
         after = sl.leaf_elements(self.core, obj) if tree["t"] != "el" else [obj]
         if not same_objects(before, after):
             self.fail("flatten:argument-changed", sz, tree=tree)
@@ -186,21 +204,21 @@ class Replay(object):
             r = o["r"]
             asked = [a for a, _, _ in sl.LOG]
             if any(not any(a is x for x in alt) for a in asked):
-                self.fail("alter_sequence:consulted-a-foreign-element", sz, tree=tree, asked=repr(asked))
+                self.fail("alter_sequence:consulted-a-foreign-element", sz, tree=tree, asked=srepr(asked))
             produced = [new for _, _, new in sl.LOG]
             if rec["mustsame"]:
                 if r is not obj:
-                    self.fail("alter_sequence:changed-although-nothing-alters", sz, tree=tree, observed=repr(r)[:200])
+                    self.fail("alter_sequence:changed-although-nothing-alters", sz, tree=tree, observed=srepr(r)[:200])
             elif tree["t"] == "el":
                 # the element's own alter_sequence decides
                 if not (len(sl.LOG) >= 1 and any(r is new for new in produced)):
-                    self.fail("alter_sequence:element-answer-not-returned", sz, tree=tree, observed=repr(r)[:200])
+                    self.fail("alter_sequence:element-answer-not-returned", sz, tree=tree, observed=srepr(r)[:200])
             elif r is not obj:
                 # nothing invented: made of the elements at hand
                 pool = before + [e for new in produced for e in sl.leaf_elements(self.core, new)]
                 got = sl.leaf_elements(self.core, r)
                 if any(not any(g is x for x in pool) for g in got):
-                    self.fail("alter_sequence:foreign-elements-in-result", sz, tree=tree, observed=repr(r)[:200])
+                    self.fail("alter_sequence:foreign-elements-in-result", sz, tree=tree, observed=srepr(r)[:200])
             results.append(r is obj)
         if len(set(results)) != 1:
             self.fail("alter_sequence:not-repeatable", sz, tree=tree)
@@ -290,9 +308,13 @@ class Replay(object):
     def rp_class(self, rec):
         sc = rec["sc"]
         form, els = sc["kind"], sc["els"]
-        x, objs = self.branch_object(form, els)
         scen = {"branch": form, "elements": els}
         sz = len(els)
+        made = observe(lambda: self.branch_object(form, els))
+        if not made["ok"]:
+            self.fail("%s:not-built:%s" % (form, made["exc"]), sz, scenario=scen, observed=made)
+            return
+        x, objs = made["r"]
         res, seq = self.classify(x)
         self.ncalls += 1
         if res not in rec["callowed"]:
@@ -311,7 +333,7 @@ class Replay(object):
         elif res["ok"] and not res["kept"] and seq is not None:
             # the derived sequence consists of the branch's elements
             if not same_objects(list(seq), objs):
-                self.fail("classify:derived-sequence-elements", sz, scenario=scen, observed=repr(seq)[:200])
+                self.fail("classify:derived-sequence-elements", sz, scenario=scen, observed=srepr(seq)[:200])
         # the same from outside, for one-branch Splits
         st = self.split_type(x)
         types = set(r["type"] if r["ok"] else r["exc"] for r in rec["callowed"])
@@ -415,7 +437,11 @@ def random_trace(ctx, rp, n):
             kind = rnd.choice(SEQ_KINDS)
             nn = rnd.randint(0 if kind == "Sequence" else 1, 12)
             objs = sl.universal(lcore, kind, nn)
-            seq = sl.construct(lcore, kind, objs)
+            made = observe(lambda: sl.construct(lcore, kind, objs))
+            if not made["ok"]:
+                rp.fail("%s:not-built:%s" % (kind, made["exc"]), 10 ** 6, elements=srepr(objs))
+                continue
+            seq = made["r"]
             pos_of = dict((id(o), j + 1) for j, o in enumerate(objs))
             if rnd.random() < 0.3:
                 a = rnd.randint(-nn - 3, nn + 3)
@@ -452,7 +478,10 @@ def random_trace(ctx, rp, n):
             ks = [k for k in kinds if k not in ("nodata", "iter")]
             els = [rnd.choice(ks)] if form == "el" else [rnd.choice(ks if rnd.random() < 0.4 else ["call", "run", "fc", "fr", "fcr"])
                                                         for _ in range(rnd.randint(0, 5))]
-            x_obj, objs = rp.branch_object(form, els)
+            made = observe(lambda: rp.branch_object(form, els))
+            if not made["ok"]:
+                continue
+            x_obj, objs = made["r"]
             if rnd.random() < 0.5:
                 res, _ = rp.classify(x_obj)
                 trace.append({"mode": "class", "form": form, "els": els, "res": res})
